@@ -162,8 +162,7 @@ func main() {
 			add(sc, r, maxOps)
 		}
 	}
-	mk("guarded", nGuard)
-	mk("unrestricted", nUnres)
+	mk("disciplined", nGuard+nUnres) // no open finding: every spec failure is a violation
 	mk("undisciplined", nUndis)
 
 	// one scenario after the other: "at rest" is judged from the states of all goroutines
